@@ -85,10 +85,28 @@ def showHdr (h : MsmHeader) : String :=
   s!"hdr={h.typ},{h.station},{h.ts},{h.multiple},{h.iods},{h.sessionTime},{h.clockSteering},{h.externalClock},{h.smoothing},{h.smoothingInterval},{h.satMask},{h.sigMask},{h.cellMask},{h.numCells}" ++
   s!" sats={joinWith "," (h.sats.map toString)} sigs={joinWith "," (h.sigs.map toString)} cells={joinWith "/" (h.cells.map showBoolRow)}"
 
+/-- The carrier frequency table of a constellation name (regenerated from the source). -/
+def freqTableOf (name : String) : Option (List (Nat × Int) × Int) :=
+  if name == "GPS" then Gen.utils_getSignalFrequencyGPS
+  else if name == "Galileo" then Gen.utils_getSignalFrequencyGalileo
+  else if name == "Glonass" then Gen.utils_getSignalFrequencyGlonass
+  else if name == "Beidou" then Gen.utils_getSignalFrequencyBeidou
+  else none
+
+def f64Text (v : F64.Val) : String := let (neg, e, mant) := F64.ieee v; s!"{neg}/{e}/{mant}"
+
 def showMsm (m : MsmMsg) : String :=
   let sats := (m.hdr.sats.zip m.sats).map (fun (id, vs) => s!" sat={id}:" ++ joinWith ":" (vs.map toString))
   let sigs := m.sigs.flatten.map (fun c => s!" sig={c.satIdx}:{c.satId}:{c.sigId}:" ++ joinWith ":" (c.vals.map toString))
-  "ok " ++ showHdr m.hdr ++ String.join sats ++ s!" nsigrows={m.sigs.length}" ++ String.join sigs
+  let name := constellation m.hdr.typ
+  let wl (sigId : Nat) : String :=
+    match freqTableOf name with
+    | some (rows, _) => (match rows.lookup sigId with
+        | some f => f64Text (F64.wavelength f.toNat)
+        | none => "false/0/0")
+    | none => "false/0/0"
+  "ok " ++ showHdr m.hdr ++ String.join sats ++ s!" nsigrows={m.sigs.length}" ++ String.join sigs ++
+  s!" const={name.replace " " "_"} wl={joinWith "," (m.sigs.flatten.map (fun c => wl c.sigId))}"
 
 def showMsmRes : Res MsmMsg → String
   | .ok m => showMsm m
